@@ -86,6 +86,12 @@ def main(tier_):
                 if e.get("r_id"):
                     focus.add(e.get("r_id"))
         acts = race.repertoire(nodes, focus=focus)
+        # entries the call itself creates: swap the fresh entry with a staged escaping symlink / directory
+        # (it does not exist before the creating syscall, so only later placements take effect)
+        for e in br.get("events", []):
+            if e.get("ev") == "sys" and e.get("nr") in ("mkdirat", "mknodat", "symlinkat") and e.get("ret") == 0 and e.get("dfd_class") == "tree" and e.get("dfd_id", 0) and e.get("dfd_id") <= 30:
+                for (sp, sn) in ((20, "l_out"), (20, "d"), (20, "l_abs")):
+                    acts.append(dict(act="exchange", sp=e["dfd_id"], sn=e["path"], dp=sp, dn=sn, prio=1))
         # growing a moved-out directory: the attacker also creates the next component outside
         sweep += race.make_sweep(tname, nodes, call, feat, n_rel, acts, pairs=False)
         if call["op"] == "mkdir_all":
